@@ -13,7 +13,7 @@ import (
 func init() {
 	register(&core.Rule{ID: "C17.4", Prop: "C17", MinSites: 1,
 		Desc: "reverse digit assembly (zone index -> string): when a loop fills B[i] backwards and decrements i, the slice taken afterwards starts at the first byte written (B[i+1:] for write-then-decrement, B[i:] for decrement-then-write), so no unwritten pool byte leads the zone string",
-		Run: runC17_4})
+		Run:  runC17_4})
 }
 
 func runC17_4(c *core.Ctx) {
@@ -102,7 +102,7 @@ func runC17_4(c *core.Ctx) {
 func init() {
 	register(&core.Rule{ID: "C17.5", Prop: "C17", MinSites: 3,
 		Desc: "zone strings are born unshared: every string returned by ip6ZoneToString is \"\", the Name of the interface looked up by this very call, or the result of itod – never a value read from package state – because conn.release() recycles each connection's zone bytes into the byte pool",
-		Run: runC17_5})
+		Run:  runC17_5})
 }
 
 func runC17_5(c *core.Ctx) {
@@ -176,7 +176,7 @@ func runC17_5(c *core.Ctx) {
 func init() {
 	register(&core.Rule{ID: "C17.6", Prop: "C17", MinSites: 8,
 		Desc: "a connection owns the zone strings it recycles: every net.Addr handed to newStreamConn/newUDPConn is built by gnet for this connection (socket.SockaddrTo*, or a module function that copies the zone with strings.Clone) or is the listener's shared address (which release() never recycles on a server loop) – never the LocalAddr()/RemoteAddr() of a foreign net.Conn, whose zone string belongs to package net's interface cache",
-		Run: runC17_6})
+		Run:  runC17_6})
 }
 
 // ownsZone: callee is a module function returning net.Addr in which every TCPAddr/UDPAddr literal takes its
@@ -308,7 +308,7 @@ func classifyAddr(c *core.Ctx, v *vocab, f *fn, e ast.Expr, depth int) (bool, st
 func init() {
 	register(&core.Rule{ID: "C17.7", Prop: "C17", MinSites: 2,
 		Desc: "release() recycles the zone of the LOCAL address only where len(c.loop.listeners) == 0 is established (a client loop, where the local address was copied for this connection); on a server loop the local address is the listener's, shared by every connection it accepted",
-		Run: runC17_7})
+		Run:  runC17_7})
 }
 
 func runC17_7(c *core.Ctx) {
